@@ -101,10 +101,10 @@ namespace GeographicLib {
     // Carlson, eqs 2.36 - 2.39
     static const real tolRG0 =
       real(2.7) * sqrt((numeric_limits<real>::epsilon() * real(0.01)));
+    // Don't use fmax/fmin (or max/min) to order x and y; they lose a NaN
+    real x0 = sqrt(x), y0 = sqrt(y);
+    if (x0 < y0) swap(x0, y0);
     real
-      // Use max/min (not fmax/fmin) to preserve NaNs
-      x0 = sqrt(max(x, y)),
-      y0 = sqrt(min(x, y)),
       xn = x0,
       yn = y0,
       s = 0,
